@@ -311,6 +311,72 @@ func vfC08Handshake(res *vfResult, c vfC08Case, v vfVariant) {
 	synctest.Wait()
 }
 
+// vfC08Trickle: the first datagram of each side is lost and, for the whole handshake, an undecodable datagram reaches the
+// target every 250 ms. Dropped garbage must not stand in the way of handshake progress: the lost flights are
+// retransmitted on their timers and the handshake completes.
+func vfC08Trickle(res *vfResult, v vfVariant, tgt string) {
+	res.Eval(1)
+	n := vfNewNet()
+	co, so := v.Cfg.Options(nil, nil)
+	p, err := vfNewPair(n, co, so)
+	if err != nil {
+		res.Count("config_rejected", 1)
+
+		return
+	}
+	target, peer := vfSideOf(p, tgt)
+	var mu sync.Mutex
+	sent := map[string]int{}
+	n.SetOnSend(func(n *vfNet, w *vfWire) {
+		mu.Lock()
+		k := sent[w.From]
+		sent[w.From]++
+		mu.Unlock()
+		if k == 0 {
+			return // lost
+		}
+		n.Deliver(w.Dst, w.Data, vfAddrOf(w.From))
+	})
+	stop := make(chan struct{})
+	fed := 0
+	feeder := make(chan struct{})
+	go func() {
+		defer close(feeder)
+		r := vfRand("C08/trickle/"+v.Name+tgt, 0)
+		for i := 0; i < 480; i++ {
+			select {
+			case <-stop:
+				return
+			case <-time.After(250 * time.Millisecond):
+			}
+			g := []byte{byte(r.IntN(20))}
+			if i%3 == 1 {
+				g = vfGenRaw(r, 1)[0].Data
+			}
+			n.Deliver(string(target.EP.addr), g, vfAddrOf(peer.Name))
+			fed++
+		}
+	}()
+	cerr, serr := p.Handshake(2 * time.Minute)
+	close(stop)
+	<-feeder
+	res.Count("trickle_datagrams", int64(fed))
+	res.NonTrivial(fmt.Sprintf("trickle/%s/%s", v.Name, tgt))
+	if cerr == nil && serr == nil {
+		res.Count("trickle_completed", 1)
+	} else {
+		mu.Lock()
+		sc, ss := sent["c"], sent["s"]
+		mu.Unlock()
+		res.Violate(fmt.Sprintf("C08:hs-starved-by-discardable-input:%s:%s", v.Name, tgt),
+			fmt.Sprintf("variant %s: the first datagram of each side was lost and one undecodable datagram reached the %s every 250 ms (%d in all); the handshake did not complete within 2 min: client=%v server=%v; datagrams emitted client=%d server=%d",
+				v.Name, tgt, fed, cerr, serr, sc, ss), map[string]any{"trickle": v.Name + "/" + tgt})
+	}
+	n.SetOnSend(nil)
+	p.Close()
+	synctest.Wait()
+}
+
 func vfVerClass(v vfVariant) string {
 	if v.Cfg.Is13() {
 		return "dtls13"
@@ -696,6 +762,16 @@ func TestVF_C08(t *testing.T) {
 		}
 		vfClearCurrent(i)
 	})
+	if len(only) == 0 {
+		var tv []vfVariant
+		for _, v := range vfC02Variants() {
+			switch v.Name {
+			case "12-ecdsa", "12-cid44", "13-direct", "13-hrr", "dualstack-both", "dualstack-both-nohv", "dualstack-client-12server", "13client-dualstack-server":
+				tv = append(tv, v)
+			}
+		}
+		vfBubbles(t, len(tv)*2, func(t *testing.T, i int) { vfC08Trickle(res, tv[i/2], []string{"c", "s"}[i%2]) })
+	}
 	res.Count("heap_delta_kb", int64(vfHeap()-heap0)/1024)
 	if len(only) == 0 {
 		res.Floor("injected/unparseable", 100)
